@@ -8,7 +8,7 @@ import gen_m1 as g  # noqa: E402
 import m1spec as sp  # noqa: E402
 import sx  # noqa: E402
 
-ASSUMPTIONS_M1 = [
+ASSUMPTIONS_M1 = ["runner: every case is executed twice in one process - a warm-up whose objects are edited in place afterwards, then the real run (state leaking between calls shows within one case); time arguments are handed over in all kinds of Duration.Type (float, Fraction, ratio string, RatioDuration, DirectDuration)", 
     "NoSharing: every object occurs once in the input tree (the tree-as-value model is not the code otherwise)",
     "durations are multiples of 1e-10 beat below 1e4 beats, so the 10-digit rounding of the implementation is exact integer arithmetic",
     "a raising call is observed only by its error kind (the partially mutated receiver is outside the property)",
